@@ -36,15 +36,17 @@ Definition fsub (a b : Z) : Z := (a - b) mod p.
 Definition fmul (a b : Z) : Z := (a * b) mod p.
 Definition finv (a : Z) : Z := modpow a (p - 2) p.
 Definition fdiv (a b : Z) : Z := (a * finv b) mod p.
-(* FieldElement.__pow__: exponent reduced mod p-1 *)
-Definition fpow (a n : Z) : Z := modpow a (n mod (p - 1)) p.
+(* FieldElement.__pow__: a non-negative exponent is used as is, a negative one is reduced mod p-1 *)
+Definition fpow (a n : Z) : Z :=
+  if 0 <=? n then modpow a n p else modpow a (n mod (p - 1)) p.
 Definition felem_ok (a : Z) : bool := (0 <=? a) && (a <? p).
 
 (* a point: None is the point at infinity *)
 Definition point := option (Z * Z).
 
+(* `self.y**2 != self.x**3 + a * x + b`: `**` is FieldElement.__pow__ *)
 Definition on_curve (x y : Z) : bool :=
-  fmul y y =? fadd (fadd (fmul (fmul x x) x) (fmul (ca C) x)) (cb C).
+  fpow y 2 =? fadd (fadd (fpow x 3) (fmul (ca C) x)) (cb C).
 
 (* Point.__init__: raises ValueError when the equation does not hold *)
 Definition mk_point (x y : Z) : result point :=
@@ -59,13 +61,13 @@ Definition padd (P Q : point) : result point :=
       if (x1 =? x2) && negb (y1 =? y2) then Ok None
       else if negb (x1 =? x2) then
         let s := fdiv (fsub y2 y1) (fsub x2 x1) in
-        let x := fsub (fsub (fmul s s) x1) x2 in
+        let x := fsub (fsub (fpow s 2) x1) x2 in
         let y := fsub (fmul s (fsub x1 x)) y1 in
         mk_point x y
       else if y1 =? 0 then Ok None
       else
-        let s := fdiv (fadd (fmul 3 (fmul x1 x1)) (ca C)) (fmul 2 y1) in
-        let x := fsub (fmul s s) (fmul 2 x1) in
+        let s := fdiv (fadd (fmul 3 (fpow x1 2)) (ca C)) (fmul 2 y1) in
+        let x := fsub (fpow s 2) (fmul 2 x1) in
         let y := fsub (fmul s (fsub x1 x)) y1 in
         mk_point x y
   end.
